@@ -4,11 +4,12 @@ import (
 	"strings"
 	"sync"
 
+	"github.com/fullstorydev/grpchan/httpgrpc"
 	"github.com/fullstorydev/grpchan/inprocgrpc"
 )
 
-// Gates: with the verif build tag the library calls inprocgrpc.VerifHook at
-// named schedule points. A gated point blocks its goroutine until the
+// Gates: with the verif build tag the library calls inprocgrpc.VerifHook and
+// httpgrpc.VerifHook at named schedule points. A gated point blocks its goroutine until the
 // scheduler releases it, which lets the harness place a cancellation exactly
 // between two frame writes or between a frame read and the next select.
 
@@ -33,12 +34,25 @@ func gateClass(point string) string {
 		return "srv"
 	case strings.HasPrefix(point, "unary.cli."):
 		return "cli"
+	// httpgrpc streams: one class per goroutine of the model
+	case strings.HasPrefix(point, "http.send."):
+		return "snd"
+	case strings.HasPrefix(point, "http.close."):
+		return "cls"
+	case strings.HasPrefix(point, "http.recv."):
+		return "rcv"
+	case strings.HasPrefix(point, "http.rd."):
+		return "rd"
+	case point == "http.watch":
+		return "wat"
+	case strings.HasPrefix(point, "http.srv."):
+		return "hsv"
 	}
 	return ""
 }
 
 func init() {
-	inprocgrpc.VerifHook = func(point string) {
+	hook := func(point string) {
 		gates.mu.Lock()
 		if !gates.on || !gates.points[point] {
 			gates.mu.Unlock()
@@ -54,6 +68,8 @@ func init() {
 		gates.mu.Unlock()
 		<-g.release
 	}
+	inprocgrpc.VerifHook = hook
+	httpgrpc.VerifHook = hook
 }
 
 func (s *gateSet) enable(points []string) {
